@@ -23,7 +23,7 @@ C02.prefix  RDLENGTH back-patch shape / rdlen(can_compress) agreement.
 import re
 import sigs
 
-from mirlib import strip, deep_strip, show, walk, const_value
+from mirlib import strip, deep_strip, show, walk, const_value, BranchFacts
 from rulelib import (
     bool_facts, canon, canon_nobb, dominating_edges, facts_at, failed_calls, fmt_path, must_pass,
     outcome_facts, return_assignments, succeeded_calls, underlying_calls, upper_bounds,
@@ -58,6 +58,8 @@ def run(ctx):
     rule_seqeq(ctx, F)
     rule_secfwd(ctx, F)
     rule_optiter(ctx, F)
+    rule_brorder(ctx, F)
+    rule_optttl(ctx, F)
 
 
 # ---------------------------------------------------------------------------
@@ -842,3 +844,146 @@ def rule_optiter(ctx, F):
                "yielded -- an option without data (NSID request, padding of length 0) at the end disappears on the way through a "
                "message" % (op, k, k), b.where(bi))
     ctx.ob(R, b, "loop condition found", n >= 1, "no comparison of Parser::remaining found in OptIter::next", nontrivial=False)
+
+
+def rule_brorder(ctx, F):
+    """A record-data type that compresses names has two writers, chosen by `target.can_compress()`.  Both write the
+    fields of the record in the same order (the parser knows one order only): the sequence of `self` fields handed to
+    calls on the compressing branch equals the sequence on the plain branch."""
+    R = "C02.brorder"
+    ctx.floor(R, 6)
+    n = 0
+    for p, b in sorted(F.bodies.items()):
+        if "::test" in p or not re.search(r" as base::rdata::ComposeRecordData>::compose_rdata$", p):
+            continue
+        bf = None
+        for sw in b.reachable_blocks():
+            tsw = b.blocks[sw]["t"]
+            if tsw["k"] != "switch":
+                continue
+            d = deep_strip(b.term_of_operand(tsw["d"]))
+            if not (d[0] == "call" and (d[1] or "").endswith("can_compress")):
+                continue
+            bf = bf or BranchFacts(b, F)
+            ef = bf.edge_facts(sw)
+            tgt = {}
+            for lab, (tm, v) in ef.items():
+                if isinstance(v, bool):
+                    tgt[v] = b.edge_target(sw, lab)
+            if True not in tgt or False not in tgt:
+                continue
+            rt, rf = b.reach_from(tgt[True]) | {tgt[True]}, b.reach_from(tgt[False]) | {tgt[False]}
+            rpo = b.rpo()
+
+            def seq(blocks):
+                out = []
+                for bb in sorted(blocks, key=lambda x: rpo.get(x, 1 << 30)):
+                    t = b.blocks[bb]["t"]
+                    if t["k"] != "call":
+                        continue
+                    for a in t["args"]:
+                        tm = deep_strip(b.term_of_operand(a))
+                        if tm[0] == "field" and deep_strip(tm[1]) == ("arg", 1):
+                            out.append(tm[2])
+                return out
+            st, sf = seq(rt - rf), seq(rf - rt)
+            if not st or not sf:
+                continue
+            n += 1
+            ctx.ob(R, b, "both writers of %s emit the fields in one order" % p.split(" as ")[0].split("::")[-1].split("<")[0], st == sf,
+                   "compose_rdata writes the fields %s when the target compresses and %s when it does not: under a compressing "
+                   "builder the record parses back with its fields exchanged" % (st, sf), b.where(sw))
+    ctx.call_sites += n
+
+
+def _symbits(t, width, src_width, depth=0):
+    """`t` as `width` symbolic bits, LSB first: each None (zero) or (source, bit).  Sources are whatever `src_width`
+    gives a width for.  None if the shape is unknown."""
+    t = deep_strip(t)
+    if depth > 24:
+        return None
+    cv = const_value(t)
+    if cv is not None and isinstance(cv, int):
+        return ("const", cv)
+    w = src_width(t)
+    if w is not None:
+        return ([(str(show(t)), j) for j in range(w)] + [None] * width)[:width]
+    if t[0] == "cast":
+        inner = _symbits(t[2], width, src_width, depth + 1)
+        if isinstance(inner, list):
+            tw = {"u8": 8, "u16": 16, "u32": 32, "u64": 64, "usize": 64}.get(t[3])
+            if tw is None:
+                return None
+            return [inner[j] if j < tw and j < len(inner) else None for j in range(width)]
+        return inner
+    if t[0] == "bin":
+        op = t[1].replace("Unchecked", "")
+        a, c = _symbits(t[2], width, src_width, depth + 1), _symbits(t[3], width, src_width, depth + 1)
+        if a is None or c is None:
+            return None
+        if op == "BitAnd":
+            if isinstance(a, tuple) and isinstance(c, list):
+                a, c = c, a
+            if isinstance(a, list) and isinstance(c, tuple):
+                return [a[j] if (c[1] >> j) & 1 else None for j in range(width)]
+            return None
+        if op in ("Shl", "Shr") and isinstance(a, list) and isinstance(c, tuple):
+            k = c[1]
+            return ([None] * k + a)[:width] if op == "Shl" else (a[k:] + [None] * k)[:width]
+        if op == "BitOr" and isinstance(a, list) and isinstance(c, list):
+            out = []
+            for x, y in zip(a, c):
+                if x is not None and y is not None:
+                    return None
+                out.append(x if x is not None else y)
+            return out
+    return None
+
+
+def rule_optttl(ctx, F):
+    """The OPT record keeps extended RCODE, version and flags in the TTL field.  Writer (`OptRecord::as_record`) and
+    reader (`OptRecord::from_record`) agree bit for bit: every bit of each of the three fields is placed at a TTL bit
+    from which the reader takes exactly that bit back.  (Symbolic evaluation of both expressions over 32 bits.)"""
+    R = "C02.optttl"
+    ctx.floor(R, 3)
+    wb = F.one_body(r"^base::opt::OptRecord::<Octs>::as_record$")
+    rb = F.one_body(r"^base::opt::OptRecord::<Octs>::from_record$")
+    if not (ctx.anchor(R, "OptRecord::as_record", wb) and ctx.anchor(R, "OptRecord::from_record", rb)):
+        return
+    widths = {"ext_rcode": 8, "version": 8, "flags": 16}
+
+    def wsrc(t):
+        if t[0] == "field" and deep_strip(t[1]) == ("arg", 1) and t[2] in widths:
+            return widths[t[2]]
+        return None
+
+    def rsrc(t):
+        if t[0] == "call" and (t[1] or "").endswith("Ttl::as_secs"):
+            return 32
+        return None
+    W = None
+    for bb, t in wb.calls():
+        if (t["fn"] or "").endswith("Ttl::from_secs"):
+            W = _symbits(wb.term_of_operand(t["args"][0]), 32, wsrc)
+    Rf = {}
+    for bi in rb.reachable_blocks():
+        for st in rb.blocks[bi]["s"]:
+            if st[0] == "=" and st[2][0] == "agg" and st[2][1][0] == "adt" and st[2][1][1].endswith("opt::OptRecord"):
+                names = st[2][1][3]
+                for nme, op in zip(names, st[2][2]):
+                    if nme in widths:
+                        Rf[nme] = _symbits(rb.term_of_operand(op), 32, rsrc)
+    if not ctx.anchor(R, "TTL expression of as_record and field expressions of from_record are bit expressions",
+                      isinstance(W, list) and len(Rf) == 3 and all(isinstance(v, list) for v in Rf.values()), wb.where()):
+        return
+    for f, w in sorted(widths.items()):
+        bad = []
+        for j in range(w):
+            pos = [k for k in range(32) if W[k] is not None and W[k][1] == j and W[k][0].endswith(f)]
+            back = Rf[f][j]
+            if len(pos) != 1 or back is None or back[1] != pos[0]:
+                bad.append(j)
+        ctx.ob(R, wb, "every bit of OptRecord.%s goes through the TTL and comes back" % f, not bad,
+               "bits %s of OptRecord.%s are not written by as_record at the TTL position from_record reads them from: an OPT record "
+               "copied into a message (OptBuilder::clone_from, which goes through as_record) comes back with these bits changed"
+               % (bad[:8], f))
